@@ -2004,10 +2004,11 @@ class Measurement:
         try:
             overlaps_lower = self_lower <= other_lower <= self_upper
             overlaps_upper = self_lower <= other_upper <= self_upper
+            contained = other_lower <= self_lower and self_upper <= other_upper
         except TypeError:
             return False
 
-        return overlaps_lower or overlaps_upper
+        return overlaps_lower or overlaps_upper or contained
 
     def __lt__(self, other: object) -> bool:
         if isinstance(other, Quantity):
